@@ -208,3 +208,35 @@ func init() {
 // globalInits gives initial values to package-level variables of packages
 // whose initialisers are not executed.
 var globalInits = map[string]func(m *Machine) Value{}
+
+// go-version: GetVersionInfo without the link-time build information (module
+// version, vcs stamps): the documented defaults, then every option applied in
+// order. What the options are and do is executed as SSA.
+func init() {
+	intrinsics["github.com/caarlos0/go-version.GetVersionInfo"] = func(m *Machine, fn *ssa.Function, a []Value) Value {
+		it := fn.Signature.Results().At(0).Type()
+		st := it.Underlying().(*types.Struct)
+		v := zero(it).(*Struct)
+		for i := 0; i < st.NumFields(); i++ {
+			switch st.Field(i).Name() {
+			case "GitVersion":
+				v.F[i] = "devel"
+			case "ModuleSum", "GitCommit", "GitTreeState", "BuildDate", "BuiltBy":
+				v.F[i] = "unknown"
+			case "GoVersion":
+				v.F[i] = "go"
+			case "Compiler":
+				v.F[i] = "gc"
+			case "Platform":
+				v.F[i] = "os/arch"
+			}
+		}
+		c := m.newCell(v)
+		if opts, ok := a[0].(Slice); ok {
+			for _, o := range sliceElems(opts) {
+				m.callValue(o, []Value{Pointer{C: c}})
+			}
+		}
+		return c.V
+	}
+}
